@@ -102,6 +102,12 @@ fn script(inbox: &[u8], ops: &[&str]) -> String {
                 Some(r) => res_str(r),
             }),
             "recv" => outs.push(res_str(calls[k].recv())),
+            // the call object goes out of scope (e.g. an iterator abandoned mid-stream); the index is not used afterwards
+            "drop" => {
+                let old = std::mem::replace(&mut calls[k], MethodCall::new(conn.clone(), "dropped", json!({})));
+                drop(old);
+                outs.push("unit".into());
+            }
             _ => outs.push("BAD-OP".into()),
         }
     }
